@@ -617,6 +617,8 @@ def run(rep, tier):
     rep.floor("block-table base stores", c19_audit.init_base_rule(rep, u), 2)
     rep.floor("single-block tests of the gatherer", c19_audit.exact_read_rule(rep, u), 1)
     c19_audit.history_bound_rule(rep, u)
+    c19_audit.lapped_advance_rule(rep, u)
+    c19_audit.stale_drop_rule(rep, u)
     nfn, total = memsafe.run_scope(rep, tier, us)
     rep.floor("functions analysed", nfn, 15)
     return driver.finish(
